@@ -692,4 +692,97 @@ MUTANTS = [
             | [ValueKind::Integer, ValueKind::NegativeInteger, ValueKind::Float, rest @ ..] => {
                 ("a number".to_owned(), rest)
             }""")]},
+    {"id": "keep-vec-continue-style", "kind": "preserving", "props": [], "edits": [
+        (IMPLS, """                    let result =
+                        T::deserialize_from_value(value.into_value(), location.push_index(index));
+                    match result {
+                        Ok(value) => {
+                            vec.push(value);
+                        }
+                        Err(e) => {
+                            error = match E::merge(error, e, location.push_index(index)) {
+                                ControlFlow::Continue(e) => Some(e),
+                                ControlFlow::Break(e) => return Err(e),
+                            };
+                        }
+                    }
+                }
+                if let Some(e) = error {
+                    Err(e)
+                } else {
+                    Ok(vec)
+                }""", """                    let value = match T::deserialize_from_value(value.into_value(), location.push_index(index)) {
+                        Ok(value) => value,
+                        Err(e) => {
+                            error = match E::merge(error, e, location.push_index(index)) {
+                                ControlFlow::Continue(e) => Some(e),
+                                ControlFlow::Break(e) => return Err(e),
+                            };
+                            continue;
+                        }
+                    };
+                    vec.push(value);
+                }
+                if let Some(e) = error {
+                    Err(e)
+                } else {
+                    Ok(vec)
+                }""")]},
+    {"id": "keep-derive-field-location-let", "kind": "preserving", "props": [], "edits": [
+        (NF, """                        #field_names = match
+                            <#field_tys as ::deserr::Deserr<#field_errs>>::deserialize_from_value(
+                                ::deserr::IntoValue::into_value(deserr_value__),
+                                deserr_location__.push_key(deserr_key__.as_str())
+                            ) {""", """                        let deserr_field_location__ = deserr_location__.push_key(deserr_key__.as_str());
+                        #field_names = match
+                            <#field_tys as ::deserr::Deserr<#field_errs>>::deserialize_from_value(
+                                ::deserr::IntoValue::into_value(deserr_value__),
+                                deserr_field_location__
+                            ) {"""),
+        (NF, """                                        deserr_error__,
+                                        e,
+                                        deserr_location__.push_key(deserr_key__.as_str())
+                                    ) {""", """                                        deserr_error__,
+                                        e,
+                                        deserr_field_location__
+                                    ) {""")]},
+    {"id": "keep-take-cf-or-pattern", "kind": "preserving", "props": [], "edits": [
+        ("src/lib.rs", """    match r {
+        ControlFlow::Continue(x) => x,
+        ControlFlow::Break(x) => x,
+    }""", """    match r {
+        ControlFlow::Continue(x) | ControlFlow::Break(x) => x,
+    }""")]},
+    {"id": "keep-deserialize-let", "kind": "preserving", "props": [], "edits": [
+        ("src/lib.rs", "    Ret::deserialize_from_value(value.into_value(), ValuePointerRef::Origin)", "    let view = value.into_value();\n    let origin = ValuePointerRef::Origin;\n    Ret::deserialize_from_value(view, origin)")]},
+    {"id": "keep-json-error-no-push-str", "kind": "preserving", "props": [], "edits": [
+        ("src/errors/json.rs", """        let mut message = String::new();
+
+        message.push_str(&match error {
+            ErrorKind::IncorrectValueKind { actual, accepted } => {
+                let expected = value_kinds_description_json(accepted);""", """        let message = match error {
+            ErrorKind::IncorrectValueKind { actual, accepted } => {
+                let expected = value_kinds_description_json(accepted);"""),
+        ("src/errors/json.rs", """                format!("Invalid value{location}: {msg}")
+            }
+        });
+
+        ControlFlow::Break(JsonError::new(message))""", """                format!("Invalid value{location}: {msg}")
+            }
+        };
+
+        ControlFlow::Break(JsonError::new(message))""")]},
+    {"id": "keep-is-missing-if-let", "kind": "preserving", "props": [], "edits": [
+        ("src/lib.rs", "        matches!(self, FieldState::Missing)", "        if let FieldState::Missing = self {\n            true\n        } else {\n            false\n        }")]},
+    {"id": "keep-array-manual-collect", "kind": "preserving", "props": [], "edits": [
+        (IMPLS, """                } else if let Ok(ret) = ret.try_into() {
+                    Ok(ret)
+                } else {
+                    panic!("Could not convert Vec<T> into [T; N]")
+                }""", """                } else {
+                    match <[T; N]>::try_from(ret) {
+                        Ok(array) => Ok(array),
+                        Err(_) => panic!("Could not convert Vec<T> into [T; N]"),
+                    }
+                }""")]},
 ]
